@@ -265,6 +265,16 @@ func TestC20(t *testing.T) {
 				lastTxs = []txgen.Tx{}
 			}
 			spec := g.DrawEnv(txs)
+			if f != nil && mode != "shared" {
+				if b, ok := f.poolFinalize(); ok && (f.propStep == 3 || f.finalizePooled < 2) {
+					spec.Pool = append(spec.Pool, b)
+					if f.propStep == 0 {
+						f.finalizePooled++
+					} else {
+						f.finalizePooled = 0
+					}
+				}
+			}
 			blocks++
 			return hist.BlockStep(spec, txs), true
 		})
